@@ -120,6 +120,7 @@ type c06gen struct {
 	sessions []int64
 	n        int
 	feat     map[string]bool
+	seqs     map[string][]uint64 // live generated suffixes per sequence prefix, ascending
 }
 
 func (g *c06gen) next(big bool) *proto.WriteRequest {
@@ -152,6 +153,14 @@ func (g *c06gen) next(big bool) *proto.WriteRequest {
 			p.PartitionKey = pb.String("pk")
 			p.SequenceKeyDelta = []uint64{uint64(1 + g.rng.IntN(3))}
 			g.feat["sequence"] = true
+			if g.seqs == nil {
+				g.seqs = map[string][]uint64{}
+			}
+			last := uint64(0)
+			if l := g.seqs[p.Key]; len(l) > 0 {
+				last = l[len(l)-1]
+			}
+			g.seqs[p.Key] = append(g.seqs[p.Key], last+p.SequenceKeyDelta[0])
 		case 5:
 			p.ClientIdentity = pb.String("id")
 		}
@@ -162,6 +171,17 @@ func (g *c06gen) next(big bool) *proto.WriteRequest {
 	}
 	if g.rng.IntN(10) == 0 {
 		req.DeleteRanges = append(req.DeleteRanges, &proto.DeleteRangeRequest{StartInclusive: "a", EndExclusive: "b"})
+	}
+	if g.rng.IntN(8) == 0 {
+		// the newest generated key of a sequence is deleted: the next one is computed from what is left
+		for _, pfx := range []string{"sq", "sq/x"} {
+			if l := g.seqs[pfx]; len(l) > 0 && g.rng.IntN(2) == 0 {
+				req.Deletes = append(req.Deletes, &proto.DeleteRequest{Key: fmt.Sprintf("%s-%020d", pfx, l[len(l)-1])})
+				g.seqs[pfx] = l[:len(l)-1]
+				g.feat["sequence-head-deleted"] = true
+				break
+			}
+		}
 	}
 	return req
 }
